@@ -619,10 +619,12 @@ def Consistent (x : Pdu) : Prop :=
 
 instance (x : Pdu) : Decidable (Consistent x) := by unfold Consistent; infer_instance
 
-/-- a setter is refused (`ValueError`) exactly when the new data-field length exceeds 16 bits;
-    when it is accepted only the assigned attribute, the flag and the length change -/
+/-- a setter is refused (`ValueError`) exactly when the new data-field length exceeds 16 bits, and
+    then the object is **unchanged** (the setter restores the old attribute; the header flag and the
+    cached length were never touched); when it is accepted only the assigned attribute, the flag and
+    the length change -/
 theorem C07_step (x : Pdu) (s : Setter) :
-    x.step s = if 65535 < (x.put s).calcLen then (x.put s, some .value)
+    x.step s = if 65535 < (x.put s).calcLen then (x, some .value)
       else ({ x.put s with header := { (x.put s).header with dataFieldLen := (x.put s).calcLen } }, none) := by
   unfold Pdu.step
   rw [recalc_eq]
@@ -630,8 +632,26 @@ theorem C07_step (x : Pdu) (s : Setter) :
   · rw [if_pos g, if_pos g]
   · rw [if_neg g, if_neg g]
 
-/-- every accepted setter call leaves a consistent object, whatever the cached length was before
-    (e.g. stale after a refused call); the flag is kept in step by the metadata setter itself -/
+/-- **refused → state unchanged**: a setter call that raises leaves exactly the object it was
+    called on (params, header flag, cached length), the exception is `ValueError`, and the reason
+    is the 16-bit length limit -/
+theorem C07_step_refused (x : Pdu) (s : Setter) (h : (x.step s).2 ≠ none) :
+    (x.step s).1 = x ∧ (x.step s).2 = some .value ∧ 65535 < (x.put s).calcLen := by
+  rw [C07_step] at h ⊢
+  split
+  · rename_i g; exact ⟨rfl, rfl, g⟩
+  · rename_i g; rw [if_neg g] at h; exact absurd rfl h
+
+/-- a setter call is accepted exactly when the new data-field length fits 16 bits -/
+theorem C07_step_accepted_iff (x : Pdu) (s : Setter) :
+    (x.step s).2 = none ↔ (x.put s).calcLen ≤ 65535 := by
+  rw [C07_step]
+  split
+  · rename_i g; exact ⟨fun h => (by cases h), fun h => (by omega)⟩
+  · rename_i g; exact ⟨fun _ => (by omega), fun _ => rfl⟩
+
+/-- every accepted setter call leaves a consistent object, whatever the cached length was before;
+    the flag is kept in step by the metadata setter itself -/
 theorem C07_step_consistent (x : Pdu) (s : Setter) (hflag : x.header.segMeta = metaFlag x.params.segMeta)
     (h : (x.step s).2 = none) : Consistent (x.step s).1 := by
   rw [C07_step] at h ⊢
@@ -643,15 +663,42 @@ theorem C07_step_consistent (x : Pdu) (s : Setter) (hflag : x.header.segMeta = m
     | fileData d => exact ⟨rfl, hflag⟩
     | segMeta m => exact ⟨rfl, rfl⟩
 
-/-- after a whole sequence of accepted setter calls the object is consistent -/
-theorem C07_run_consistent (x : Pdu) (l : List Setter) (hx : Consistent x)
-    (hall : ∀ p ∈ x.trace l, p.2 = none) : Consistent (x.run l) := by
+/-- consistency is an invariant of every setter call, accepted or refused -/
+theorem C07_step_inv (x : Pdu) (s : Setter) (hx : Consistent x) : Consistent (x.step s).1 := by
+  by_cases h : (x.step s).2 = none
+  · exact C07_step_consistent x s hx.2 h
+  · rw [(C07_step_refused x s h).1]; exact hx
+
+/-- a refused call in a sequence is skipped: the sequence continues from the unchanged state -/
+theorem C07_run_refused (x : Pdu) (s : Setter) (l : List Setter) (h : (x.step s).2 ≠ none) :
+    x.run (s :: l) = x.run l ∧ x.trace (s :: l) = (x, some .value) :: x.trace l := by
+  obtain ⟨h1, h2, _⟩ := C07_step_refused x s h
+  refine ⟨?_, ?_⟩
+  · simp only [Pdu.run, List.foldl_cons, h1]
+  · have : x.step s = (x, some .value) := Prod.ext h1 h2
+    simp only [Pdu.trace, this]
+
+/-- after a whole sequence of setter calls — accepted or refused, in any mixture — the object is
+    consistent: reported length = packed length (`C07_consistent_pack_len`) survives refusals -/
+theorem C07_run_consistent (x : Pdu) (l : List Setter) (hx : Consistent x) : Consistent (x.run l) := by
   induction l generalizing x with
   | nil => exact hx
   | cons s rest ih =>
-    simp only [Pdu.trace, List.mem_cons, forall_eq_or_imp] at hall
     simp only [Pdu.run, List.foldl_cons]
-    exact ih _ (C07_step_consistent x s hx.2 hall.1) hall.2
+    exact ih _ (C07_step_inv x s hx)
+
+/-- every state in the trace of a sequence is consistent, and each refused entry carries the state
+    before the call -/
+theorem C07_trace_consistent (x : Pdu) (l : List Setter) (hx : Consistent x) :
+    ∀ p ∈ x.trace l, Consistent p.1 := by
+  induction l generalizing x with
+  | nil => intro p hp; cases hp
+  | cons s rest ih =>
+    intro p hp
+    simp only [Pdu.trace, List.mem_cons] at hp
+    rcases hp with rfl | hp
+    · exact C07_step_inv x s hx
+    · exact ih _ (C07_step_inv x s hx) p hp
 
 /-- setters never touch the configuration or the PDU type -/
 theorem C07_run_conf (x : Pdu) (l : List Setter) :
@@ -663,7 +710,9 @@ theorem C07_run_conf (x : Pdu) (l : List Setter) :
     have h1 := ih (x.step s).1
     simp only [Pdu.run] at h1
     rw [h1.1, h1.2, C07_step]
-    split <;> cases s <;> exact ⟨rfl, rfl⟩
+    split
+    · exact ⟨rfl, rfl⟩
+    · cases s <;> exact ⟨rfl, rfl⟩
 
 /-- a consistent object is determined by its configuration, PDU type and params: after any setter
     sequence it is the object a fresh construction with the final values gives -/
@@ -787,6 +836,14 @@ theorem C07_step_wf (x : Pdu) (wf : WF x) (s : Setter)
       | fileData d => exact hmeta
       | segMeta m => exact hs
 
+/-- the domain is an invariant of every setter call with in-domain arguments, accepted or refused
+    (a refused call leaves the object as it was) -/
+theorem C07_step_wf_any (x : Pdu) (wf : WF x) (s : Setter)
+    (hs : match s with | .fileData _ => True | .segMeta m => WFMeta m) : WF (x.step s).1 := by
+  by_cases h : (x.step s).2 = none
+  · exact (C07_step_wf x wf s hs h).1
+  · rw [(C07_step_refused x s h).1]; exact wf
+
 theorem C07_wf_consistent (x : Pdu) (wf : WF x) : Consistent x := ⟨wf.2.2.1, wf.2.1⟩
 
 /-! ## non-vacuity -/
@@ -813,11 +870,19 @@ example : Pdu.unpack [0x30, 0, 4, 0x00, 0, 0, 0, 0xFF, 0xFF, 0xFF] = .error .val
   C07_truncated exB (by decide) 10 (by decide)
 example : maxFileSegLen PduConfig.default 10 none = .error .value := by rfl
 example : maxFileSegLen PduConfig.default 64 none = .ok 53 := by rfl
-example : (exB.step (.fileData (List.replicate 65532 0))).2 = some .value := by
+example : exB.step (.fileData (List.replicate 65532 0)) = (exB, some .value) := by
   have h : 65535 < (exB.put (.fileData (List.replicate 65532 0))).calcLen := by
     simp only [Pdu.put, Pdu.putFileData, calcLen_eq, List.length_replicate, exB, metaLen]
     have := offWidth_pos ⟨1, 0, 4, ⟨⟨1, 0⟩, ⟨1, 0⟩, ⟨1, 0⟩, 0, 0, 0, 0, 0⟩⟩
     omega
   rw [C07_step, if_pos h]
+-- the sequence continues after the refusal, from the unchanged object
+example : exB.run [.fileData (List.replicate 65532 0), .fileData [1, 2]] = exB.run [.fileData [1, 2]] :=
+  (C07_run_refused exB _ _ (by
+    have h : 65535 < (exB.put (.fileData (List.replicate 65532 0))).calcLen := by
+      simp only [Pdu.put, Pdu.putFileData, calcLen_eq, List.length_replicate, exB, metaLen]
+      have := offWidth_pos ⟨1, 0, 4, ⟨⟨1, 0⟩, ⟨1, 0⟩, ⟨1, 0⟩, 0, 0, 0, 0, 0⟩⟩
+      omega
+    rw [C07_step, if_pos h]; exact fun h => by cases h)).1
 
 end SpVerif.Props.C07
